@@ -34,8 +34,7 @@ CFG = dict(
         "the source index consulted by an injective index (SrcOther) is assumed correct and caught up (the code waits for it) and to hold the "
         "source key of every indexable entry under the same source prefix (the SQL engine's primary/secondary pairing); an index that is its "
         "own source index has no target mapper (spec_ok)",
-        "ranged reads (GetBetween/ReadBetween) are generated only with an upper bound that is 0 or not below the oldest version of the keys "
-        "read: below it embedded/tbtree returns versions of another key (known finding of C10, lastUpdateBetween)",
+        "ranged reads below the oldest version of a key and source-index lookups of a lagging injective index rely on the tbtree repair e30fc04 (lastUpdateBetween, C10); probe D5 of the harness replays the stall that defect caused (known_findings/C04.json, fixed)",
         "verif hook /repo/embedded/store/verif_hooks_c04.go (build tag verif, add-only): pause/resume of the indexers, valueRefFrom and "
         "serializeIndexableEntry exposed",
         "the full theorems C04_index_equals_history, C04_get_is_latest_live, C04_history_*, C04_scan_*, C04_reads_are_spec, "
